@@ -264,6 +264,17 @@ fn syntax_tokens(ts: proc_macro2::TokenStream) -> String {
                         }
                     }
                 }
+                // `::` and `->` are single tokens for syn only when the two characters are joint
+                if p.spacing() == proc_macro2::Spacing::Joint {
+                    if let Some(TokenTree::Punct(q)) = tts.get(i + 1) {
+                        let pair = (p.as_char(), q.as_char());
+                        if pair == (':', ':') || pair == ('-', '>') {
+                            out += &format!("(p {})", quote(&format!("{}{}", pair.0, pair.1)));
+                            i += 2;
+                            continue;
+                        }
+                    }
+                }
                 out += &format!("(p {})", quote(&p.as_char().to_string()));
             }
             TokenTree::Literal(l) => match syn::parse_str::<syn::Lit>(&l.to_string()) {
@@ -360,6 +371,11 @@ fn main() {
                 let real = match kind {
                     "type" => match catch_unwind(AssertUnwindSafe(|| syn::parse_str::<pyxis::grammar::Type>(&text))) {
                         Ok(Ok(t)) => format!("(ok {})", ast::ty(&t)),
+                        Ok(Err(_)) => "err".to_string(),
+                        Err(_) => "panic".to_string(),
+                    },
+                    "module" => match catch_unwind(AssertUnwindSafe(|| pyxis::parser::parse_str(&text))) {
+                        Ok(Ok(m)) => format!("(ok {})", ast::module(&m)),
                         Ok(Err(_)) => "err".to_string(),
                         Err(_) => "panic".to_string(),
                     },
